@@ -117,7 +117,10 @@ func longTask(name, log, sleepTag string, sc cancelScenario) *task.Task {
 	body := fmt.Sprintf("echo start-%s >> %s; sleep %s; echo end-%s >> %s", name, log, sleepTag, name, log)
 	if sc.Point == "overlap" || sc.Point == "run-during-cancel" {
 		// a command that ignores the interrupt: it dies of the kill that follows two seconds later
-		body = fmt.Sprintf("echo start-%s >> %s; sh -c 'trap \"\" INT; exec sleep %s'; echo end-%s >> %s", name, log, sleepTag, name, log)
+		// (the start marker is written by that shell once the interrupt is ignored: a cancellation that arrives between a
+		// marker written earlier and the trap - likely on a loaded machine - ends the shell at once and the scenario
+		// degenerates into the plain one)
+		body = fmt.Sprintf("sh -c 'trap \"\" INT; echo start-%s >> %s; exec sleep %s'; echo end-%s >> %s", name, log, sleepTag, name, log)
 	}
 	switch sc.Point {
 	case "in-context-up-immune":
@@ -175,7 +178,7 @@ func cancelChild(args []string) {
 		"slow-in-context-up": runner.NewExecutionContext(nil, "", variables.NewVariables(),
 			[]string{fmt.Sprintf("echo start-t0 >> %s; sleep %s", sc.Log, sleepTag)}, []string{fmt.Sprintf("echo ctx-down >> %s", sc.Log)}, nil, []string{fmt.Sprintf("echo ctx-after >> %s", sc.Log)}),
 		"slow-in-context-up-immune": runner.NewExecutionContext(nil, "", variables.NewVariables(),
-			[]string{fmt.Sprintf("echo start-t0 >> %s; sh -c 'trap \"\" INT; exec sleep %s'", sc.Log, sleepTag)}, nil, nil, nil),
+			[]string{fmt.Sprintf("sh -c 'trap \"\" INT; echo start-t0 >> %s; exec sleep %s'", sc.Log, sleepTag)}, nil, nil, nil),
 		"slow-in-context-before": runner.NewExecutionContext(nil, "", variables.NewVariables(),
 			[]string{"true"}, []string{fmt.Sprintf("echo ctx-down >> %s", sc.Log)}, []string{fmt.Sprintf("echo start-t0 >> %s; sleep %s", sc.Log, sleepTag)}, []string{fmt.Sprintf("echo ctx-after >> %s", sc.Log)}),
 	})
@@ -744,9 +747,8 @@ func runCancelProp(col *Collector, focus, tier string, seed int64) {
 	}
 	var rmu sync.Mutex
 	var retry []retryJob
-	parallel(len(scs), 12, func(i int) {
-		sc := scs[i]
-		obs, exit, stderr, to := runCancelScenario(sc)
+	// the case of a scenario is built from ONE observation: its summary for the model and its verdict describe the same run
+	mkCase := func(sc cancelScenario, obs *cancelObs) Case {
 		cs := Case{Replay: "cancel " + sc.String(), Tags: []string{"mode=" + sc.Mode, "inflight=" + strconv.Itoa(sc.Inflight), "point=" + sc.Point}}
 		cs.NonTrivial = sc.Inflight+sc.Waiting > 0
 		if obs != nil {
@@ -765,12 +767,18 @@ func runCancelProp(col *Collector, focus, tier string, seed int64) {
 			cs.Impl = fmt.Sprintf("cret=%s|errs=%s|late_err=%s|started_after=%d|cret2=%s", b(obs.CancelReturnedMs >= 0), strings.Join(errs, ","),
 				b(obs.LateRunErr && !obs.LateRunRan), len(obs.StartedAfter), b(!twice || obs.SecondCancelMs >= 0))
 		}
+		return cs
+	}
+	parallel(len(scs), 12, func(i int) {
+		sc := scs[i]
+		obs, exit, stderr, to := runCancelScenario(sc)
+		cs := mkCase(sc, obs)
 		fail, sig := cancelVerdict(sc, obs, exit, stderr, to)
-		if fail != "" && timingSigs[sig] {
+		if fail != "" && timingSigs[sig] && os.Getenv("VERIF_NO_RETRY") == "" {
 			// a bound on wall-clock time was exceeded: on a machine that is busy enough that can happen to correct
 			// code. The scenario is repeated on its own, after the others; a deadlock shows again, a slow start does not
 			rmu.Lock()
-			retry = append(retry, retryJob{sc, cs, fail, sig})
+			retry = append(retry, retryJob{sc, fail, sig})
 			rmu.Unlock()
 			return
 		}
@@ -780,9 +788,12 @@ func runCancelProp(col *Collector, focus, tier string, seed int64) {
 		col.Add(cs)
 	})
 	for _, j := range retry {
+		// the repeated run is the one that is reported, as a whole: what is compared with the model is what THIS run did
+		// (the summary of the first attempt - `Cancel did not return within the bound` - describes a run that the verdict
+		// below no longer talks about, and kept with a passing verdict it read as a disagreement with the model)
 		obs, exit, stderr, to := runCancelScenario(j.sc)
 		fail, sig := cancelVerdict(j.sc, obs, exit, stderr, to)
-		cs := j.cs
+		cs := mkCase(j.sc, obs)
 		if fail != "" {
 			cs.Fail, cs.Sig = fmt.Sprintf("%s (twice: the first attempt ended with: %s)", fail, j.fail), sig
 		} else {
@@ -795,7 +806,6 @@ func runCancelProp(col *Collector, focus, tier string, seed int64) {
 
 type retryJob struct {
 	sc   cancelScenario
-	cs   Case
 	fail string
 	sig  string
 }
